@@ -267,6 +267,17 @@ def decode_admin_record(data):
     return out
 
 
+def forwarded_size(spec, node_id, now_ms):
+    ''' Encoded size of the bundle as this node must forward it (RFC 9171 5.4 / 4.4): received blocks plus a
+    Previous Node block and, when the creation time is known, a Bundle Age block (numbers 2 and 3, no CRC, as a
+    fresh node adds them), computed with the independent encoder.  Only for bundles that carry no such blocks. '''
+    enc = spec_for_encode(spec)
+    extra = [dict(type=6, num=2, crc=0, data=cbor2.dumps(eid_to_cbor(node_id)))]
+    if enc.get('time', 0) != 0:
+        extra.append(dict(type=7, num=3, crc=0, data=cbor2.dumps(int(now_ms) - int(enc['time']))))
+    return len(encode_bundle(dict(enc, blocks=list(enc.get('blocks', ())) + extra)))
+
+
 def ident_of(primary):
     ''' Bundle identity per RFC 9171 section 4.2.2 / property C10: source, creation timestamp and, for
     fragments, offset and total length. '''
@@ -608,7 +619,7 @@ def unknown_bib(num=10):
 
 def spec_for_encode(spec):
     out = dict(spec)
-    for key in ('sec', 'prep', 'note'):
+    for key in ('sec', 'prep', 'note', 'model_size', 'model_fragfeas'):
         out.pop(key, None)
     if 'payload_hex' in out:
         out['payload'] = bytes.fromhex(out.pop('payload_hex'))
@@ -700,16 +711,21 @@ def coq_case(case):
     for (idx, item) in enumerate(case['tx_routes']):
         pid = 1000 + idx
         mtu = item.get('mtu')
+        rpt_class = item['model_rpt'] if 'model_rpt' in item else mtu_class_report(mtu)
         tx_terms.append('(mkTx %d %s %s %d)' % (pid, 'true' if item.get('cl_type', 'fake') == 'fake' else 'false',
-                                                '(@None N)' if mtu is None else '(Some %d)' % mtu, mtu_class_report(mtu)))
+                                                '(@None N)' if mtu is None else '(Some %d)' % mtu, rpt_class))
         comp = re.compile(item['pattern'])
         for eid in universe:
             if comp.match(eid) is not None:
                 matches.append('(%d, %d)' % (pid, tab.get(eid)))
     bundles = []
     for spec in case['hist']:
-        size = len(encode_bundle(spec_for_encode(spec)))
-        bundles.append(coq_bundle(spec, tab, size, frag_feasible(case, spec, size)))
+        # model inputs owned by C05: either decided here with a safety band (frag_feasible raises AmbiguousCase
+        # inside it), or supplied by the caller from an independent size computation (model_size) and from what
+        # was really transmitted (model_fragfeas) - never from the code path under test
+        size = spec['model_size'] if 'model_size' in spec else len(encode_bundle(spec_for_encode(spec)))
+        feas = spec['model_fragfeas'] if 'model_fragfeas' in spec else frag_feasible(case, spec, size)
+        bundles.append(coq_bundle(spec, tab, size, feas))
 
     def lst(items, typ):
         return '(@nil %s)' % typ if not items else '[' + '; '.join(items) + ']'
@@ -836,7 +852,7 @@ def slim_event(evt):
 
 def run_impl(case):
     ''' (canonical observations for the model comparison, JSON-able raw observations for the oracle) '''
-    (_term, tab) = coq_case(case)
+    tab = case_eids(case)
     (drv, obs) = run_case_impl(case)
     canon = canon_impl(drv, obs, tab, case['hist'])
     raw = [dict(events=[slim_event(evt) for evt in item['events']], actions=item['actions'], escaped=item['escaped'],
